@@ -244,7 +244,17 @@ def r14c(ctx, rep):
             if c is not None and c.get("int") == 1:
                 trues.append((bb, s))
     if not trues:
-        rep.anchor_lost("R14c", "Ok(true) return in compare_vector")
+        # restructured (e.g. returns a computed bool): require only that the lengths are compared somewhere
+        cmp_ = False
+        for bb, j, s in f.stmts():
+            rv = s["rv"]
+            if rv["k"] == "bin" and rv["op"] in ("Ne", "Eq"):
+                a, b = f.origin(rv["a"]), f.origin(rv["b"])
+                if a[0] == "call" and b[0] == "call" and callee(a[1]).endswith("::len") and callee(b[1]).endswith("::len") and a[1] is not b[1]:
+                    cmp_ = True
+        (rep.ok if cmp_ else rep.fail)("R14c", "R14c|compare_vector|lengths-compared",
+                                       "compare_vector compares the two lengths" if cmp_ else
+                                       "compare_vector never compares the lengths of its operands", [f.span])
         return
     for i, (bb, s) in enumerate(trues):
         ok = False
